@@ -23,6 +23,10 @@ import FGVerif.Proofs.C14
                               `C10.smiles_roundtrip_modulo_rdkit` with the identity renaming); and so is the
                               small `getIts` — `C15.getIts_small_eq_general`: the small and the general
                               `get_its` agree on the halves of every sample in the decidable domain `generalOk`
+  * `C15.halvesB_sound` / `C15.halvesB_reaction` (`Proofs/C15Halves.lean`) the DIRECT check of the two halves that the
+                              driver applies to every implementation sample (`Model/C15.lean: halvesB`: closed simple
+                              graphs, every bond label a scalar ≠ 0, between any two pattern nodes exactly the labels
+                              `splitG` / `splitH` keep) means what it says, and the model's halves pass it
   * `C15.da_counts`           the documented sample counts 10470 / 12875 are what the counting formula
                               (proved equal to the number of samples: `C14.total`) gives on the generated
                               shipped configuration — kernel arithmetic (`C14.da_count_pos/neg`).
